@@ -19,6 +19,7 @@ import (
 	"sync"
 	"time"
 
+	"github.com/magisterquis/curlrevshell/internal/hsrv"
 	"github.com/magisterquis/curlrevshell/internal/iobroker"
 	"github.com/magisterquis/curlrevshell/verifharness/ev"
 	"github.com/magisterquis/curlrevshell/verifharness/srv"
@@ -351,7 +352,7 @@ func rtWorker(fd map[string]string, cases []rtCase, seed int64, exoticEvery int)
 		if exoticEvery > 0 && i%exoticEvery == 0 {
 			for _, et := range rtExotic(t, rng) {
 				nex++
-				n0 := s.NLines()
+				l0 := len(s.Log.Records())
 				resp := srv.Raw(s.Addr, "", []byte("GET "+et+" HTTP/1.1\r\nHost: files.example\r\nConnection: close\r\n\r\n"), 3*time.Second)
 				if bytes.Contains(resp.Raw, []byte("CANARY")) {
 					fs = append(fs, rtFinding{"file-outside-tree-served", map[string]any{"target": et, "serve_files_from": c.Cfg, "status": resp.Status, "body": string(resp.Body)}})
@@ -360,19 +361,14 @@ func rtWorker(fd map[string]string, cases []rtCase, seed int64, exoticEvery int)
 					fs = append(fs, rtFinding{"content-served-while-unset", map[string]any{"target": et, "status": resp.Status, "body": string(resp.Body)}})
 				}
 				if c.Cfg == "file" && !(resp.Status == 200 && bytes.Equal(resp.Body, []byte("SINGLE-FILE-CONTENT\n"))) {
-					// whatever the spelling: once the file handler has the request, the one file is the answer
-					for k := 0; k < 20; k++ {
-						ran := false
-						for _, l := range s.Lines()[n0:] {
-							if !l.CL.Plain && strings.Contains(l.CL.Line, "File requested") {
-								ran = true
-							}
-						}
-						if ran {
+					// whatever the spelling: once the file handler has the request, the one file is the
+					// answer.  The handler's log record is written synchronously, before it answers, and
+					// this server serves this worker only: a record after l0 belongs to this request.
+					for _, lr := range s.Log.Records()[l0:] {
+						if lr["msg"] == hsrv.LMFileRequested {
 							fs = append(fs, rtFinding{"single-file-not-returned", map[string]any{"target": et, "serve_files_from": c.Cfg, "status": resp.Status, "body": string(resp.Body), "location": resp.Header["location"]}})
 							break
 						}
-						time.Sleep(500 * time.Microsecond)
 					}
 				}
 				// a shell left attached by an exotic spelling of a shell route must go before the next case
